@@ -77,12 +77,12 @@ def hasIncompleteBlock (s : List SOp) : Bool :=
     | op :: rest, blk =>
       match op with
       | .ret _ => blk.isSome
-      | .rBlockHeader n => if n == 0 then go rest (some (0, 0)) else go rest (some (0, n))
+      | .rBlockHeader n => if blk.isSome then true else go rest (some (0, n))
       | .rBlockData d => match blk with
         | some (k, n) => if d.length > n - k then go rest blk else if k + d.length == n then go rest none else go rest (some (k + d.length, n))
         | none => go rest none
-      | .rBlock _ => go rest none
-      | .rArrBin .. => go rest none
+      | .rBlock _ => if blk.isSome then true else go rest none
+      | .rArrBin .. => if blk.isSome then true else go rest none
       | _ => go rest blk
   go s none
 
@@ -132,6 +132,57 @@ def judgeRun (cmds : List Cmd) (toks : List String) : List String :=
       else ["C06.response_content"]
     c02 ++ c06)
 
+/-- C17: independent streaming encoder for one unit whose script emits blocks / binary arrays (possibly
+unfinished or over-length): (bytes written, completed items, refused chunks) -/
+def streamUnit (s : List SOp) : Bytes × Nat × Nat :=
+  let rec go : List SOp → Bytes → Nat → Nat → Nat → Bytes × Nat × Nat
+    | [], out, done, _, refused => (out, done, refused)
+    | op :: rest, out, done, remaining, refused =>
+      let sepB : Bytes := if done > 0 then [44] else []
+      match op with
+      | .ret _ => (out, done, refused)
+      | .rBlock d => go rest (out ++ sepB ++ encodeBlock d) (done + 1) 0 refused
+      | .rBlockHeader n =>
+        let l := decimal n
+        go rest (out ++ sepB ++ [35, UInt8.ofNat (48 + l.length)] ++ l) done n refused
+      | .rBlockData d =>
+        if d.length > remaining then go rest out done remaining (refused + 1)
+        else go rest (out ++ d) (if remaining - d.length == 0 then done + 1 else done) (remaining - d.length) refused
+      | .rArrBin sz elems same =>
+        if sz == 1 ∨ sz == 2 ∨ sz == 4 ∨ sz == 8 then
+          go rest (out ++ sepB ++ encodeBlock (elems.flatMap (fun e => if same then e else e.reverse))) (done + 1) 0 refused
+        else go rest out done remaining (refused + 1)
+      | .rInt w sg v b => go rest (out ++ sepB ++ intText w v b sg) (done + 1) remaining refused
+      | .rChars d => go rest (out ++ sepB ++ d) (done + 1) remaining refused
+      | _ => go rest out done remaining refused
+  go s [] 0 0 0
+
+def isBlockScript (s : List SOp) : Bool :=
+  s.any (fun o => match o with | .rBlock _ | .rBlockHeader _ | .rBlockData _ | .rArrBin .. => true | _ => false) &&
+  s.all (fun o => match o with | .rBlock _ | .rBlockHeader _ | .rBlockData _ | .rArrBin .. | .rInt .. | .rChars _ | .ret _ | .iTag => true | _ => false)
+
+/-- judge calls that executed exactly one message with exactly one handler whose script is a block script -/
+def judgeBlocks (cmds : List Cmd) (toks : List String) : List String :=
+  let (calls, _) := groupCalls toks
+  calls.flatMap (fun call =>
+    match call.msgs with
+    | [m] =>
+      let hs := m.events.filter (·.startsWith "H")
+      match hs with
+      | [h] =>
+        let tag := (((h.drop 1).toString.splitOn ":").headD "").toInt?.getD 0
+        let script := (cmds.find? (fun c => c.tag == tag)).map (·.script) |>.getD []
+        if !isBlockScript script then [] else
+        let (bytes, done, refused) := streamUnit script
+        let want := bytes ++ (if done > 0 then bytesOf Gen.LINE_ENDING else [])
+        let gotRefused := (m.events.filter (· == "E-310")).length
+        (if gotRefused != refused then ["C17.overlength_not_refused"] else []) ++
+        (if call.written == want then []
+         else if call.written.filter (fun b => b != 44 && b != 13 && b != 10) == want.filter (fun b => b != 44 && b != 13 && b != 10) then ["C17.item_count"]
+         else ["C17.block_encoding"])
+      | _ => []
+    | _ => [])
+
 /-- normalised trace for the relational judges: handler / parameter / error events, all output bytes,
 final queue, remainder and registers — without the per-call R / F bookkeeping -/
 def normalise (toks : List String) : List String × Bytes × List String :=
@@ -154,7 +205,7 @@ def terminatorInsideQuotes (s : Bytes) : Bool :=
 
 def judgeParse (mode : String) (cmds : List Cmd) (inp : List String) (obs : List String) : List String :=
   let (a, b) := splitBar (obs.map (fun t => if t == "||" then "|" else t))
-  let base := (judgeRun cmds a ++ (if mode == "P" then [] else judgeRun cmds b)).eraseDups
+  let base := (judgeRun cmds a ++ judgeBlocks cmds a ++ (if mode == "P" then [] else judgeRun cmds b)).eraseDups
   let rel :=
     if mode == "P8" then
       let (e1, w1, t1) := normalise a; let (e2, w2, t2) := normalise b
